@@ -408,7 +408,7 @@ fn run_one(idx: u64, line: &Value, opts: &Opts, port: u16, stats: &mut Stats) ->
                 .iter()
                 .map(|l| state["probes"][l]["d"].as_array().map(|a| a.iter().any(|x| x != "drop")).unwrap_or(false))
                 .collect();
-            let outs = wctl::udp_collect(mocks, &shots, &expect, Duration::from_millis(opts.wait_ms.max(4000) * 2), Duration::from_millis(150));
+            let outs = wctl::udp_collect(mocks, &shots, &expect, Duration::from_millis(opts.wait_ms.max(4000) * 2), Duration::from_millis((opts.wait_ms / 27).max(100)));
             for (l, o) in udp_ls.iter().zip(outs) {
                 seen.entry(l.clone()).or_default().insert("d".to_string(), o);
             }
